@@ -225,6 +225,10 @@ func NewGen(r *Rng, k Knobs) *Gen {
 		g.C.Ops = append(g.C.Ops, OpSpec{Name: "now", Kind: "now", Ret: TInt, Arity: 0})
 		g.ob[TInt] = append(g.ob[TInt], len(g.C.Ops)-1)
 	}
+	// how the caller built its fetcher type: mostly a type of its own, now and
+	// then a struct embedding one of the library's fetchers with the three
+	// methods overridden
+	g.C.Fetcher = []string{"", "", "", "", "", "embed_map", "embed_slice"}[r.Intn(7)]
 	if k.TupleOp && len(g.C.Ops) > 0 {
 		g.C.Ops = append(g.C.Ops, OpSpec{Name: "tup", Kind: "tuple", Ret: TAny, Arity: 3})
 		g.tup = "tup"
@@ -730,6 +734,33 @@ func (g *Gen) boolExpr1(d int) *Node {
 			return Op(name, a, b, g.Leaf(TBool))
 		}
 		return Op(name, a, b)
+	}
+	// a built-in applied to the wrong number of operands: an error like any
+	// other, raised when (and only if) the application is reached
+	if g.K.PIll > 0 && r.P(0.03) {
+		g.left -= 4
+		switch r.Intn(7) {
+		case 0:
+			return Op(PickS(r, []string{"not", "!"}), g.args(TBool, []int{0, 2, 3}[r.Intn(3)], 1)...)
+		case 1:
+			return Op(PickS(r, []string{"gt", ">", "lt", "<=", "ge", "le"}), g.args(TInt, []int{0, 1, 3}[r.Intn(3)], 1)...)
+		case 2:
+			return Op("between", g.args(TInt, []int{0, 1, 2, 4}[r.Intn(4)], 1)...)
+		case 3:
+			if r.P(0.5) {
+				return Op("in", g.Leaf(TInt))
+			}
+			return Op("in", g.Leaf(TInt), g.litOf(TIntList), g.litOf(TIntList))
+		case 4:
+			if r.P(0.5) {
+				return Op("overlap", g.Leaf(TIntList))
+			}
+			return Op("overlap", g.litOf(TIntList), g.Leaf(TIntList), g.litOf(TIntList))
+		case 5:
+			return Op(PickS(r, []string{"eq", "=", "ne", "!="}), g.args(TInt, []int{0, 1}[r.Intn(2)], 1)...)
+		default:
+			return Op(PickS(r, []string{"<", ">="}), Op(PickS(r, []string{"add", "-", "*", "/", "mod", "version", "date", "t_date", "td_time", "datetime", "to_version"}), g.args(TInt, []int{0, 1, 3}[r.Intn(3)], 1)...), g.Leaf(TInt))
+		}
 	}
 	// weights: and, or, if, not, xor, cmp, eq, ne, between, in, overlap, custom, fail
 	ws := []float64{2 * w, 2 * w, w, 1, 0.5, 2, 2, 1, 0.7, 1, 0.7, 0, 0}
